@@ -109,7 +109,10 @@ def gen_source(rng):
         return gen_source(rng)          # known-finding class D2 inside an include file: kept out of the compared stream
     exprs = []
     r = rng.random()
-    if r < 0.5:
+    if r < 0.03:
+        n = rng.choice([40, 101, 125])          # a long chain of expressions, each depending on the previous one
+        exprs = ["t000 1;", "dt 2;"] + [f't{i:03d} "$t{i - 1:03d} + $dt";' for i in range(1, n)]
+    elif r < 0.5:
         exprs = rng.sample(["va 3;", "vb $va;", "vc \"$va + 4\";", "vd $missing;", "ve \"$vb * 2 + $va\";", "vf ( 1 2 3 );", "vg $vf[1];",
                             "vs 'text';", "vt $vs;", "vu \"$nope + 1\";", "vz \"2 * $va\";"], rng.randint(1, 6))
     text = c12.render(rng, items)
